@@ -50,19 +50,18 @@ class NotSupportedError(DatabaseError):
     pass
 
 
-# error code -> class, following pymysql.err.error_map
+# error code -> class: exactly pymysql 1.1.x `pymysql.err.error_map`; unlisted codes are InternalError below 1000
+# and OperationalError otherwise (so e.g. 1054, 1172, 1242, 1364, 1644 are OperationalError).
 _ERROR_CLASS = {}
 for _codes, _cls in (
-    ((1007, 1008, 1049, 1050, 1051, 1054, 1060, 1061, 1064, 1091, 1146, 1149, 1305, 1318, 1327, 1052, 1415, 1422, 1109),
-     ProgrammingError),
-    ((1263, 1264, 1265, 1366, 1406, 1292, 1367, 1441, 1690, 3158, 3140, 3141), DataError),
-    ((1022, 1048, 1062, 1169, 1216, 1217, 1451, 1452, 1364, 1557, 1586), IntegrityError),
-    ((1235, 1289), NotSupportedError),
-    ((1040, 1205, 1213, 2003, 2013, 1172, 1242, 1644, 1329, 1241, 1326, 1325, 1136, 1792, 1414, 1318), OperationalError),
+    ((1007, 1149, 1064, 1146, 1102, 1103, 1110, 1111, 1112, 1113, 1179, 1166), ProgrammingError),
+    ((1265, 1263, 1264, 1230, 1171, 1406, 1441, 1366, 1367), DataError),
+    ((1062, 1216, 1452, 1217, 1451, 1215, 1048), IntegrityError),
+    ((1196, 1235, 1289, 1286), NotSupportedError),
+    ((1044, 1045, 1040, 1142, 1143, 4025, 1213), OperationalError),
 ):
     for _c in _codes:
-        _ERROR_CLASS.setdefault(_c, _cls)
-# pymysql maps 1364 (no default) to IntegrityError via ER.NO_DEFAULT_FOR_FIELD; keep as is.
+        _ERROR_CLASS[_c] = _cls
 
 
 def make_error(code: int, message: str) -> DatabaseError:
